@@ -229,7 +229,7 @@ def h_compress(env, n, words, canary=False):
 
 def shapes(tier, seed):
     out = []
-    taper = [(2, "jw", False, 2, 0), (2, "jw", True, 2, 0), (2, "bk", False, 2, 0), (2, "bk", True, 2, 0), (2, "jkmn", False, 2, 0),
+    taper = [(2, "jw", False, 2, 0), (2, "jw", True, 2, 0), (2, "bk", False, 2, 0), (2, "bk", True, 2, 0), (2, "jkmn", False, 2, 0), (3, "jkmn", False, 2, 0),
              (2, "jkmn", True, 2, 0)]
     if tier == "thorough":
         taper += [(2, "jw", False, 2, 2), (2, "bk", True, 1, 1), (3, "jw", False, 2, 0), (3, "jw", True, 4, 0), (3, "bk", False, 2, 0)]
